@@ -14,7 +14,7 @@ from lightworks import emulator as emu
 from .. import kernel
 from ..circuit_ops import Env, REJECT_TYPES, full_fingerprint
 
-SLOTS = ["P", "A", "B", "Q", "C", "L", "W", "G", "E", "O"]
+SLOTS = ["P", "A", "B", "Q", "C", "L", "W", "G", "E", "O", "K"]
 
 
 def init_pool(env):
@@ -32,7 +32,9 @@ def init_pool(env):
     G = lw.Circuit(4); G.add(g, 1, group=True); G.ps(0, lw.Parameter(env.PH[0], label="top"))   # Parameters inside a group
     E = lw.Circuit(4)                                                                          # empty
     O = lw.Circuit(4); O.add(A, 1, group=True)                                                 # exactly one group
-    return {"P": P, "A": A, "B": B, "Q": Q, "C": None, "S": S, "L": L, "W": W, "G": G, "E": E, "O": O}
+    k = lw.Circuit(2); k.bs(0, reflectivity=env.R[1], convention="H"); k.ps(0, env.PH[1])
+    K = lw.Circuit(3); K.add(k, 1, group=True); K.bs(0, reflectivity=env.R2)                # small, holds a plain group off mode 0
+    return {"P": P, "A": A, "B": B, "Q": Q, "C": None, "S": S, "L": L, "W": W, "G": G, "E": E, "O": O, "K": K}
 
 
 def alphabet(env):
@@ -53,6 +55,7 @@ def alphabet(env):
     ops += [("copy", "P"), ("copy", "Q"), ("freeze", "Q"), ("copy", "B"), ("copy", "W"),
             ("copy", "G"), ("freeze", "G"), ("copy", "O"), ("plus", "E", "P"), ("plus", "P", "E"), ("plus", "E", "W"),
             ("edit", "C", "unpack_then_ps"), ("edit", "O", "unpack_then_ps")]
+    ops += [("add", "P", "K", 1, False), ("add", "Q", "K", 1, False), ("add", "P", "K", 0, False), ("add", "P", "K", 1, True)]
     ops += [("edit", "C", "unpack"), ("edit", "C", "compress"), ("edit", "C", "remove"), ("edit", "C", "bs"),
             ("add", "C", "A", 1, False), ("add", "P", "C", 0, False)]
     for tgt in ("P", "Q"):
